@@ -43,6 +43,38 @@ def _cvc5(s, timeout_ms):
         os.unlink(p)
 
 
+def _sign_match(ob):
+    op, a, b = ob.rel
+    t = T.lift(a) - b if not (T.is_num(b) and b == 0) else T.lift(a)
+    c = ob.ctx
+    for q in ob.sign_hints:
+        q = T.lift(q)
+        p = T.eq_poly(t, q)
+        if p is None:
+            continue
+        saved = T._CTX[0]
+        T.set_ctx(c)
+        try:
+            if T._quick_differs(c, p):
+                continue
+        finally:
+            T.set_ctx(saved)
+        r = cert.prove_eq(p, list(ob.hyps), c.order, timeout=20, facts=ob.facts + ob.pc)
+        if r['status'] != 'discharged':
+            continue
+        s = z3.Solver()
+        s.set('timeout', 5000)
+        for f in ob.facts:
+            s.add(f)
+        for f in ob.pc:
+            s.add(f)
+        neg = {'>': q.z <= 0, '>=': q.z < 0, '!=': q.z == 0}[op]
+        s.add(neg)
+        if s.check() == z3.unsat:
+            return 'equal to a closed form named by the contract (certificate), whose sign z3 proves'
+    return None
+
+
 def model_env(m):
     env = {}
     for d in m.decls():
@@ -69,6 +101,16 @@ def discharge(ob, allow_cvc5=True):
         if z3.is_true(g):
             res.update(status='discharged', backend='z3-simplify')
             return _fin(res, t0)
+        for f in ob.facts + ob.pc:
+            if z3.eq(f, ob.goal):
+                res.update(status='discharged', backend='assumption', detail='syntactically a known fact')
+                return _fin(res, t0)
+        # 0a. sign obligations: match against a closed form named by the contract
+        if ob.rel is not None and ob.sign_hints:
+            r = _sign_match(ob)
+            if r is not None:
+                res.update(status='discharged', backend='certificate+z3', detail=r)
+                return _fin(res, t0)
         # 0. a short SMT attempt settles the easy ones
         s0 = _solver(ob)
         s0.set('timeout', 1500)
@@ -80,7 +122,7 @@ def discharge(ob, allow_cvc5=True):
             p = T.eq_poly(*ob.eq)
             if p is not None:
                 hyps = list(ob.hyps)
-                r = cert.prove_eq(p, hyps, ob.ctx.order, timeout=CERT_TIMEOUT_S)
+                r = cert.prove_eq(p, hyps, ob.ctx.order, timeout=CERT_TIMEOUT_S, facts=ob.facts + ob.pc)
                 res['backend'] = r['backend']
                 res['detail'] = r.get('detail', '')
                 if r['status'] == 'discharged':
